@@ -299,6 +299,9 @@ class ObjectStoreModel(Model):
     def contains(self, it, ref, item):
         return self.has(it, ref, item.t)
 
+    def ghost_in_store(self, it, ref, args):
+        return VBool(self.has(it, ref, args[0].t))
+
     def add(self, it, ref, obj):
         repo = self.repo(it, ref)
         oid = it.getattr(obj, "id")
